@@ -48,6 +48,11 @@ pub enum Op {
     /// runs, takes the connection and calls the service, and a stop arrives ("stop racing new
     /// connections", with the connection in progress but not yet counted)
     DispatchStopRace { l: u16, graceful: bool },
+    /// 17..100 clients connect to listener `l` at once (more than any per-poll batch bound)
+    DispatchBurst { l: u16, n: u8 },
+    /// the next (re-)creation of service `s` stays pending until `ReleaseFactory`
+    HoldFactory { s: u16 },
+    ReleaseFactory { s: u16 },
 }
 
 #[derive(Clone, Debug, Serialize, Deserialize, PartialEq)]
@@ -72,6 +77,8 @@ pub enum Prop {
 
 #[derive(Clone, Debug, PartialEq)]
 enum Ev {
+    /// the worker future is polled (everything up to the next marker happens inside that poll)
+    PollBegin,
     Create { token: usize, inst: u32 },
     PollReady { token: usize, inst: u32, ok: Option<bool> }, // None = Pending
     Call { token: usize, inst: u32, conn: Option<usize> },
@@ -98,6 +105,9 @@ struct World {
     idents: RefCell<Vec<(String, usize)>>,
     conns: RefCell<Vec<ConnSlot>>,
     now_ms: Cell<u64>,
+    /// factory of service s is held back
+    hold: RefCell<Vec<bool>>,
+    hold_wakers: RefCell<Vec<Vec<Waker>>>,
 }
 
 thread_local! {
@@ -208,6 +218,20 @@ impl Future for Yield {
     }
 }
 
+/// pending while the factory of `token` is held back by the script
+struct HoldGate(usize, Rc<World>);
+impl Future for HoldGate {
+    type Output = ();
+    fn poll(self: Pin<&mut Self>, cx: &mut Context<'_>) -> Poll<()> {
+        if self.1.hold.borrow()[self.0] {
+            self.1.hold_wakers.borrow_mut()[self.0].push(cx.waker().clone());
+            Poll::Pending
+        } else {
+            Poll::Ready(())
+        }
+    }
+}
+
 fn factory_for(token: usize) -> hv::Factory {
     hv::stream_factory::<_, TcpStream>(&format!("svc{token}"), token, move || {
         fn_factory(move || {
@@ -220,6 +244,7 @@ fn factory_for(token: usize) -> hv::Factory {
                 };
                 w.log.borrow_mut().push(Ev::Create { token, inst });
                 Yield(w.delay.get(token).copied().unwrap_or(0)).await;
+                HoldGate(token, w.clone()).await;
                 Ok::<_, ()>(ScriptedSvc { token, inst, w })
             }
         })
@@ -267,6 +292,8 @@ struct Engine {
     calls_seen: usize,
     timeout_ms: u64,
     limit: usize,
+    /// ids of connections made by a burst
+    burst_members: Vec<usize>,
 }
 
 impl Engine {
@@ -319,6 +346,7 @@ impl Engine {
         self.seen_wakes = self.flag.0.load(Ordering::SeqCst);
         let waker = Waker::from(self.flag.clone());
         let mut cx = Context::from_waker(&waker);
+        self.w.log.borrow_mut().push(Ev::PollBegin);
         let r = catch_unwind(AssertUnwindSafe(|| worker.as_mut().poll(&mut cx)));
         match r {
             Err(p) => {
@@ -345,7 +373,7 @@ impl Engine {
             // until it has been re-created from its factory
             let tok = match &log[i] {
                 Ev::PollReady { token, .. } | Ev::Call { token, .. } => Some(*token),
-                Ev::Create { .. } => None,
+                Ev::Create { .. } | Ev::PollBegin => None,
             };
             if let Some(t) = tok {
                 let failed_before = log[..i]
@@ -362,7 +390,19 @@ impl Engine {
                     self.calls_seen += 1;
                     // (ii) FIFO + routing
                     match (self.dispatched.pop_front(), conn) {
-                        (Some((want_id, want_tok)), Some(id)) => {
+                        (Some((mut want_id, want_tok)), Some(id)) => {
+                            // connections of one burst sit in the listener's accept queue together;
+                            // the kernel does not promise connect() order there: a later member
+                            // of the same burst on the same listener takes the place of this one
+                            if *id != want_id && self.burst_members.contains(id) && self.burst_members.contains(&want_id) {
+                                if let Some(pos) = self.dispatched.iter().position(|(d, t)| d == id && *t == want_tok) {
+                                    self.dispatched[pos].0 = want_id;
+                                    want_id = *id;
+                                } else if let Some(pos) = self.backlog[want_tok].iter().position(|d| d == id) {
+                                    self.backlog[want_tok][pos] = want_id;
+                                    want_id = *id;
+                                }
+                            }
                             if *id != want_id {
                                 self.flagv(Prop::C07, "C07/not-fifo", format!("service call for connection {} but connection {} was received first", id, want_id));
                                 self.flagv(Prop::C01, "C01/worker-order", format!("service call for connection {} but connection {} was received first", id, want_id));
@@ -379,7 +419,9 @@ impl Engine {
                         self.flagv(Prop::C07, "C07/call-on-old-instance", format!("call on instance {} of service {} after it was replaced", inst, token));
                     }
                     // (i) every service was polled ready (latest result Ok) since the previous call
-                    let start = (0..i).rev().find(|j| matches!(log[*j], Ev::Call { .. })).map(|j| j + 1).unwrap_or(0);
+                    // and within the worker poll that makes this call ("right after": an answer
+                    // from an earlier poll may be stale)
+                    let start = (0..i).rev().find(|j| matches!(log[*j], Ev::Call { .. } | Ev::PollBegin)).map(|j| j + 1).unwrap_or(0);
                     for t in 0..n {
                         let last = log[start..i].iter().rev().find_map(|e| match e {
                             Ev::PollReady { token, ok, inst } if *token == t => Some((*ok, *inst)),
@@ -406,6 +448,7 @@ impl Engine {
                         self.label("readiness-pending");
                     }
                 }
+                Ev::PollBegin => {}
                 Ev::Create { token, .. } => {
                     // (iv) a create must follow a readiness failure of that very service (or be initial)
                     let initial = !log[..i].iter().any(|e| matches!(e, Ev::Create { token: t, .. } if t == token));
@@ -532,6 +575,8 @@ async fn run_async(c: &Case, prop: Prop) -> CaseResult {
         idents: RefCell::new(vec![]),
         conns: RefCell::new(vec![]),
         now_ms: Cell::new(0),
+        hold: RefCell::new(vec![false; n]),
+        hold_wakers: RefCell::new(vec![vec![]; n]),
     });
     WORLD.with(|x| *x.borrow_mut() = Some(w.clone()));
     let _ = hv::take_dispatch_log();
@@ -572,6 +617,7 @@ async fn run_async(c: &Case, prop: Prop) -> CaseResult {
         calls_seen: 0,
         timeout_ms: c.shutdown_timeout_s as u64 * 1000,
         limit: c.limit.max(1),
+        burst_members: vec![],
     };
     e.check_log();
     let mut queued_while_unready = false;
@@ -597,6 +643,43 @@ async fn run_async(c: &Case, prop: Prop) -> CaseResult {
                     if unready {
                         queued_while_unready = true;
                     }
+                }
+            }
+            Op::DispatchBurst { l, n: nb } => {
+                if (e.worker.is_none() && e.completed_at.is_some()) || e.clients.len() > 10 {
+                    continue;
+                }
+                let l = vcore::pick(l, n);
+                let count = 17 + (nb as usize % 84);
+                for _ in 0..count {
+                    if let Ok(s) = std::net::TcpStream::connect(e.addrs[l]) {
+                        let _ = socket2::SockRef::from(&s).set_linger(Some(Duration::ZERO));
+                        let id = e.clients.len();
+                        w.idents.borrow_mut().push((format!("{}->{}", s.local_addr().map(|a| a.to_string()).unwrap_or_default(), e.addrs[l]), id));
+                        w.conns.borrow_mut().push(ConnSlot { done: false, waker: None, called: 0, finished_at: None, dropped_unfinished: false, fut_dropped: false });
+                        e.clients.push(s);
+                        e.backlog[l].push_back(id);
+                        e.burst_members.push(id);
+                    }
+                }
+                e.accept_quiesce(&mut stepped);
+                e.label("burst");
+                let unready = w.state.borrow().iter().any(|s| *s == SvcState::Pending) || w.fail_next.borrow().iter().any(|f| *f);
+                if unready {
+                    queued_while_unready = true;
+                    e.label("burst-while-unready");
+                }
+            }
+            Op::HoldFactory { s } => {
+                let s = vcore::pick(s, n);
+                w.hold.borrow_mut()[s] = true;
+            }
+            Op::ReleaseFactory { s } => {
+                let s = vcore::pick(s, n);
+                w.hold.borrow_mut()[s] = false;
+                let ws: Vec<Waker> = w.hold_wakers.borrow_mut()[s].drain(..).collect();
+                for wk in ws {
+                    wk.wake();
                 }
             }
             Op::Poll => {
@@ -727,7 +810,19 @@ async fn run_async(c: &Case, prop: Prop) -> CaseResult {
     }
 
     // ---- final drain ---------------------------------------------------------------------------
+    let restarting_at_stop = e.stops.first().map(|_| w.hold.borrow().iter().any(|h| *h) && !w.hold_wakers.borrow().iter().all(|v| v.is_empty())).unwrap_or(false);
+    if restarting_at_stop {
+        e.label("stop-while-service-restarts");
+    }
     if e.stops.is_empty() {
+        // factories held back by the script are let go
+        for s in 0..n {
+            w.hold.borrow_mut()[s] = false;
+            let ws: Vec<Waker> = w.hold_wakers.borrow_mut()[s].drain(..).collect();
+            for wk in ws {
+                wk.wake();
+            }
+        }
         // C07 (iii): everything ready -> every dispatched connection is called exactly once
         for s in 0..n {
             w.state.borrow_mut()[s] = SvcState::Ready;
